@@ -123,6 +123,8 @@ class CallMixin(object):
                 res.append(z3.BoolVal(isinstance(t, TTuple)))
             elif n == "dict":
                 res.append(z3.BoolVal(isinstance(t, TDict)))
+            elif n == "complex":
+                res.append(z3.BoolVal(isinstance(t, TAbs) and t.name == "Complex"))
             elif isinstance(t, TRef):
                 cs = self.cspec(t.cls)
                 if cs is None or cs.record:
